@@ -2,6 +2,7 @@ import Model.Numscript.Spec
 import Model.Numscript.VM
 import Lemmas.NumResolve
 import Lemmas.NumRun
+import Lemmas.NumCheck
 /-! C12 — no script, variable map or ledger state can crash the engine.
 Stage 1: at the level of `Spec` (the source-level interpreter the compiler+VM are differentially tied to).
 `Spec.run` is a total Lean function — every recursion in it (`evalSource`/`evalSources`,
@@ -67,6 +68,16 @@ theorem resolve_never_panics (P : Script) (prog : Program) (hc : compile P = .ok
   · intro R hr
     rw [hr] at h1
     exact (resolveBalances_ok prog R store h1.1 h1.2 hwn).1
+
+/-- **the compiler never crashes**: `VisitExpr` returns a nil `*machine.Address` for number arithmetic, and several
+visitors dereference the returned address (`*assetAddr`, `*accAddr`, `*monAddr`); the model makes that dereference
+an explicit outcome `nilAddr`, and it is unreachable — every dereference is behind a type test that number
+arithmetic fails.  So compiling ends with a program or with a reported error (static rule or size limit). -/
+theorem compile_never_panics (P : Script) : compile P ≠ .error .nilAddr := by
+  intro h
+  have := compile_ck P
+  rw [h] at this
+  exact this
 
 /-! #### the VM never panics
 
